@@ -677,6 +677,28 @@ func (r *run) leaseOnce(last bool) (soft bool, _ *failure) {
 			return false, r.failf(r.h.Kind == pool.Mux, "lease-failed-on-healthy-upstream", "request %q was admitted but its stream was reset (%v) without reaching the accepting upstream; model: %s", tok, st.Resets, r.describe())
 		}
 		if hadIdle > 0 && r.pingpong() {
+			// The verdict rests on the model's belief that a healthy idle connection existed. Whether a drained
+			// connection was kept or closed by the pool is read from the counters, which can coincide in a step
+			// that also opened a connection (concurrent step, refusing upstream): ask the upstream. A believed-idle
+			// connection that the upstream has seen closed by the pool was not idle: correct the model, no verdict.
+			var stale []*mconn
+			waitEither(200*time.Millisecond, func() bool {
+				stale = stale[:0]
+				for _, c := range r.idle {
+					if uc := r.rig.Up.Conn(c.id); uc != nil && !uc.Open() {
+						stale = append(stale, c)
+					}
+				}
+				return len(stale) > 0
+			})
+			if len(stale) > 0 {
+				for _, c := range append([]*mconn(nil), stale...) {
+					r.logf("c%d was believed idle but the upstream saw it closed: model corrected", c.id)
+					r.closeConn(c, true)
+				}
+				r.class("idle-belief-corrected")
+				return false, r.settle("lease-refused")
+			}
 			return false, r.failf(false, "lease-failed-on-idle-connection", "request %q was given an idle connection that was already dead (resets %v); model: %s", tok, st.Resets, r.describe())
 		}
 		return false, r.settle("lease-refused")
@@ -907,11 +929,15 @@ func (r *run) settleEither(c *mconn, name string) *failure {
 	which := 0
 	r.poll(func() string {
 		got := r.read()
-		if diffBooks(got, keep) == "" {
+		// the counters decide together with the upstream's view of the connection (kept: still open there;
+		// closed by the pool: the upstream has seen its peer close it)
+		uc := r.rig.Up.Conn(c.id)
+		peerClosed := uc != nil && uc.PeerClosed
+		if diffBooks(got, keep) == "" && !peerClosed {
 			which = 1
 			return ""
 		}
-		if diffBooks(got, gone) == "" {
+		if diffBooks(got, gone) == "" && (peerClosed || uc == nil) {
 			which = 2
 			return ""
 		}
